@@ -265,6 +265,11 @@ def run(repo: Repo, rep: Report, tier: str) -> None:
     rep.check(not own_lk, "C04-R11", "_determine_locked_wire_colors does not pin a folded cell's output to one colour", "no lock keyed by the cell" if not own_lk else
               f"`{norm(own_lk[0])[:80]}`: `c.write(c.read() + 1); d.write(d.read() + 2);` on one signal with a reader `c.read() + d.read()` puts both outputs on red and the loops merge", dl.loc(own_lk[0]) if own_lk else dl.loc())
 
+    # ---------------- R12 --------------------------------------------------------------
+    _borrow4(repo, rep, "C01", "C01-R4", "C04-R12", "the folded loop reads its own value and its input on the colours they were wired with: the arithmetic configurator hands "
+             "each operand's wire selection to that operand's slot (the loop wire is red, an input on the cell's signal green: crossed selections add the cell to itself)",
+             select=lambda o: "_configure_arithmetic" in o.construct, floor=2)
+
 
 def _anc10(root: ast.AST, node: ast.AST) -> list[ast.AST]:
     from ..core import parents_map
